@@ -23,12 +23,12 @@ PROP = {
         # ~350 documents/s per process (goquery parse + xurls regexes dominate)
         {"name": "c07", "pkg": _PKG, "run": "^TestVerif_C07_(Assets|Outlinks|Config)$", "kind": "rapid",
          "facets": ["C07/assets", "C07/outlinks", "C07/config"],
-         "checks": (4000, 30000), "shards": (2, 16), "timeout": (600, 3000)},
+         "checks": (4000, 20000), "shards": (2, 16), "timeout": (600, 3000)},
         # separate generator classes (white-space padding, srcset descriptor white space): while their findings are open
         # the affected references are excluded and counted, what is left (padding around srcset values) is checked
         {"name": "c07ws", "pkg": _PKG, "run": "^TestVerif_C07_(PaddedAssets|PaddedOutlinks|SrcsetWS)$", "kind": "rapid",
          "facets": ["C07/padded-assets", "C07/padded-outlinks", "C07/srcset-ws"],
-         "checks": (800, 8000), "shards": (1, 4), "timeout": (600, 3000)},
+         "checks": (800, 5000), "shards": (1, 4), "timeout": (600, 3000)},
     ] + [
         {"name": "c07kf-" + name.lower(), "pkg": _PKG, "run": "^TestVerifKF_C07_" + name + "$", "kind": "kf", "finding": key,
          "facets": ["C07/kf-" + key[4:]], "checks": (1, 1), "shards": (1, 1), "timeout": (120, 120)}
